@@ -128,8 +128,13 @@ def _worker(job):
     outs, fails = [], []
     for idx in range(start, start + n):
         x = seq_of_index(ln, idx)
-        outs.append(impl_run_extrema(x))
-        f = oracle_extrema(x)
+        try:
+            with common.time_limit(20):
+                outs.append(impl_run_extrema(x))
+                f = oracle_extrema(x)
+        except common.Timeout:
+            outs.append([-6])
+            f = [('get_padded_extrema', 'did not return within 20 s for the %d-sample signal %s' % (ln, x))]
         if f:
             fails.append((x, f[:2]))
     return ln, start, n, common.block_hash(outs), fails[:3]
@@ -165,7 +170,11 @@ def oracle_envelope(x, mode, method, pad, parabolic):
     N = len(x)
     opts = {'pad_width': pad, 'parabolic_extrema': parabolic}
     try:
-        r = sift.interp_envelope(x, mode=mode, interp_method=method, extrema_opts=opts, ret_extrema=True)
+        with common.time_limit(20):
+            r = sift.interp_envelope(x, mode=mode, interp_method=method, extrema_opts=opts, ret_extrema=True)
+    except common.Timeout:
+        return [('interp_envelope', 'mode=%s method=%s pad=%d parabolic=%s: no envelope after 20 s for a %d-sample signal (the padding '
+                 'loop does not terminate)' % (mode, method, pad, parabolic, N))], True
     except Exception as e:
         return [('interp_envelope', 'raised %s: %s' % (type(e).__name__, e))], False
     if r is None:
